@@ -471,6 +471,31 @@ func (sc *c11Scenario) laws(s *simrt.Sim, add func(clause, fp, detail string)) {
 			add("once-per-evaluation", "nil-pointer-in-the-middle-of-a-chain", fmt.Sprintf("New(nil *box).FlatMap(fallback).FlatMap(id).Eval() = %v after %d step marks (want the fallback box 7, marks 11)", r, steps))
 		}
 	}
+	// re-entrancy: an OnNext that subscribes the same MonadIO again and re-configures it - every (nested) Subscribe
+	// is an evaluation of its own: the effect and OnNext once per Subscribe
+	{
+		effs, nexts, depth := 0, 0, 0
+		var mr *fpgo.MonadIODef[int]
+		mr = fpgo.MonadIONewGenerics(func() int { effs++; return effs })
+		var sub fpgo.Subscription[int]
+		sub = fpgo.Subscription[int]{OnNext: func(v int) {
+			nexts++
+			if depth < 2 {
+				depth++
+				mr.Subscribe(sub)
+			} else if depth == 2 {
+				depth++
+				mr.SubscribeOn(nil).ObserveOn(nil)
+			}
+		}}
+		st := s.Go("reentrant-subscriber", func() {
+			sc.h.Do("reentrant-subscriber", "Subscribe", nil, func() (interface{}, error) { mr.Subscribe(sub); return nil, nil })
+		})
+		ok := s.WaitUntilTimeout(st.Done, 5*time.Minute)
+		if !ok || effs != 3 || nexts != 3 {
+			add("once-per-evaluation", "Subscribe-from-inside-OnNext-of-the-same-MonadIO", fmt.Sprintf("OnNext subscribes the same MonadIO again (2 levels) and then calls its setters: outer Subscribe returned=%v, effect ran %d times, OnNext %d times (want 3 and 3)", ok, effs, nexts))
+		}
+	}
 	// one-shot handlers: the OnNext (or the effect) closes the very handler it runs on - the step that the handler
 	// had already taken still counts exactly once, and nothing of the chain moves to another goroutine
 	for _, closer := range []string{"OnNext", "effect"} {
